@@ -3,6 +3,7 @@ import Sekai.Gen.BankFlows
 import SekaiProofs.Lemmas.Dec
 import Sekai.Gen.App
 import Sekai.Model.App
+import Sekai.Model.Ubi
 /-! # C13 — Monetary policy bounds: inflation, UBI and supply caps
 
 * `inflation_bound`: block inflation never lifts supply above the period snapshot grown pro rata at the configured
@@ -406,6 +407,88 @@ theorem owner_edit_supply_within_cap (t t' : TokenInfo) (sender : Nat) (newCap :
 
 example : ownerEdit ⟨800, 1000, 3, false⟩ 3 500 3 false = none := by decide
 example : (ownerEdit ⟨800, 1000, 3, false⟩ 3 900 3 false).isSome = true := by decide
+
+/-! ### UBI behind the annual gate, record by record (`Ubi.endLoop`) -/
+section UbiGate
+open Sekai.Ubi
+
+/-- with the gate closed a record is neither paid nor marked as paid -/
+theorem processRec_closed (s : State) (r : Rec) (now : Nat) : processRec s r now false = .ok (s, 0) := by
+  simp [processRec]
+
+/-- **the annual gate is consulted for every record, against what the block has already minted**: in the list of this
+block's payouts every payout was made while the amount minted before it (by the earlier payouts of the same block, on top
+of `minted`) was still below the room the gate leaves - once the room is used up no further record is paid. -/
+theorem payouts_within_room (now : Nat) (room : Nat) (recs : List Rec) :
+    ∀ (minted : Nat) (s s' : State) (l : List (Nat × Nat)),
+      endLoop now (some room) minted recs s = some (s', l) →
+      ∀ (pre : List (Nat × Nat)) (x : Nat × Nat) (post : List (Nat × Nat)), l = pre ++ x :: post →
+        minted + (pre.map (·.2)).sum < room := by
+  induction recs with
+  | nil =>
+    intro minted s s' l h pre x post hl
+    simp [endLoop] at h
+    obtain ⟨_, rfl⟩ := h
+    simp at hl
+  | cons r rest ih =>
+    intro minted s s' l h pre x post hl
+    unfold endLoop at h
+    by_cases hd : due r now = true
+    · simp only [hd, if_true] at h
+      by_cases hg : gateOpen (some room) minted = true
+      · -- gate open: the record may pay
+        cases hp : processRec s r now (gateOpen (some room) minted) with
+        | error e =>
+          cases e with
+          | panic => simp [hp] at h
+          | err => simp only [hp] at h; exact ih minted s s' l h pre x post hl
+        | ok res =>
+          obtain ⟨s1, paid⟩ := res
+          simp only [hp] at h
+          cases hr : endLoop now (some room) (minted + paid) rest s1 with
+          | none => simp [hr] at h
+          | some res2 =>
+            obtain ⟨s2, l2⟩ := res2
+            simp only [hr, Option.some.injEq, Prod.mk.injEq] at h
+            obtain ⟨_, hl2⟩ := h
+            have hopen : minted < room := by simpa [gateOpen] using hg
+            by_cases hz : paid = 0
+            · simp only [hz, if_true] at hl2
+              subst hl2
+              have := ih (minted + paid) s1 s2 l2 hr pre x post hl
+              simpa [hz] using this
+            · simp only [hz, if_false] at hl2
+              subst hl2
+              cases pre with
+              | nil => simpa using hopen
+              | cons y pre' =>
+                simp only [List.cons_append, List.cons.injEq] at hl
+                obtain ⟨hy, hl'⟩ := hl
+                have := ih (minted + paid) s1 s2 l2 hr pre' x post hl'
+                subst hy
+                simp only [List.map_cons, List.sum_cons]
+                omega
+      · -- gate closed: nothing is paid for this record, the loop goes on with the same amount
+        have hg' : gateOpen (some room) minted = false := by simpa using hg
+        rw [hg', processRec_closed] at h
+        simp only [Nat.add_zero] at h
+        cases hr : endLoop now (some room) minted rest s with
+        | none => simp [hr] at h
+        | some res2 =>
+          obtain ⟨s2, l2⟩ := res2
+          simp only [hr, if_true, Option.some.injEq, Prod.mk.injEq] at h
+          obtain ⟨_, hl2⟩ := h
+          subst hl2
+          exact ih minted s s2 l2 hr pre x post hl
+    · simp only [hd, Bool.false_eq_true, if_false] at h
+      exact ih minted s s' l h pre x post hl
+
+/-- two records due in one block, room for less than the first payout: the first is paid, the second is not -/
+example :
+    let r1 : Rec := { name := 1, start := 0, stop := 0, last := 0, amount := 7, period := 10, pool := 0, dynamic := false }
+    let r2 : Rec := { name := 2, start := 0, stop := 0, last := 0, amount := 5, period := 10, pool := 0, dynamic := false }
+    (gateOpen (some 3000000) 0, gateOpen (some 3000000) 7000000, gateOpen none 7000000, r1.amount + r2.amount) = (true, false, true, 12) := by decide
+end UbiGate
 
 /-! ### Application wiring (table `Gen.App`) -/
 
